@@ -166,6 +166,12 @@ func DoBatchWithOptions(ctx context.Context, op Operation, r DoBatchRing, keys [
 		return err
 	}
 
+	if len(instances) == 0 {
+		// Empty batch: no replica is called, so nothing would ever signal completion below.
+		o.Cleanup()
+		return nil
+	}
+
 	tracker := batchTracker{
 		done: make(chan struct{}, 1),
 		err:  make(chan error, 1),
